@@ -517,6 +517,19 @@ func ruleStoreOrFail(c *Check, ruleStore, ruleCommitted, ruleRO string) {
 	nOK, nRO, nExh, bad := 0, 0, 0, 0
 	nStore, badRO := 0, 0
 	nCommit, badCommit := 0, 0
+	// the loop-carried error variable(s): what the exit paths test as isnil(loop:<name>@..)
+	loopErrNames := map[string]bool{}
+	nCarried := 0
+	for i := range paths {
+		for _, cd := range paths[i].Conds() {
+			if a := cd.Atom.A; cd.Atom.Kind == "bool" && strings.HasPrefix(a, "isnil(loop:") {
+				nm := strings.TrimPrefix(a, "isnil(loop:")
+				if at := strings.Index(nm, "@"); at > 0 {
+					loopErrNames[nm[:at]] = true
+				}
+			}
+		}
+	}
 	for i := range paths {
 		p := &paths[i]
 		stores := callsOf(p, storeName)
@@ -545,6 +558,26 @@ func ruleStoreOrFail(c *Check, ruleStore, ruleCommitted, ruleRO string) {
 			}
 		}
 		if strings.HasPrefix(p.End, "backedge:") {
+			// the error tested after the loop ("giving up") is, on every retry,
+			// the failure of this round's Store: otherwise the loop can run out
+			// of retries with a nil error and SendOnce reports success
+			if len(stores) >= 1 {
+				for _, r := range p.Rets {
+					eq := strings.Index(r, "=")
+					if eq <= 0 {
+						continue
+					}
+					name, val := r[:eq], r[eq+1:]
+					if !loopErrNames[name] {
+						continue
+					}
+					nCarried++
+					if isNil, f := boolCond(p, "isnil("+val+")", -1); !(f && !isNil) {
+						bad++
+						c.Bad(ruleStore, fnSendOnce+"/retry-carries-error", "a retry of the store loop carries "+val+" as the error that is tested after the loop, which is not known to be the (non-nil) Store failure: when the retries are used up SendOnce reports success without having stored anything (the watermark advances and the cleaner is told the merged snapshots were re-published)", c.pathPos(p), describe(c, p))
+					}
+				}
+			}
 			// retry: only after a failed Store, and through a cancellable sleep
 			if len(stores) == 1 {
 				tr, f := boolCond(p, "isnil("+stores[0].Res+")", -1)
@@ -579,6 +612,7 @@ func ruleStoreOrFail(c *Check, ruleStore, ruleCommitted, ruleRO string) {
 		c.Ok(ruleStore, fnSendOnce+"/store-or-fail", fmt.Sprintf("nil-error returns: %d after a successful Store, %d receive-only exits, %d via the zero-iteration exit of the retry loop (excluded by configuration validation, see below); the loop repeats only after a failed Store and a cancellable sleep", nOK, nRO, nExh), pos)
 	}
 	c.Floor(ruleStore, nOK, 1, "successful-store return paths")
+	c.Floor(ruleStore, nCarried, 1, "retries carrying the loop's error variable")
 	if badRO == 0 {
 		c.Ok(ruleRO, fnSendOnce+"/store-under-receive-only", fmt.Sprintf("all %d paths reaching Store pass the false edge of ReceiveOnly", nStore), pos)
 	}
